@@ -117,7 +117,17 @@ func (rw *RuntimeErrorWrapper) Error() string {
 		code = werr.Code
 	}
 
-	callStack := rw.vm.GetErrorCallStack()
+	fullStack := rw.vm.GetErrorCallStack()
+	callStack := []*r.CallFrame{}
+	for i, tr := range fullStack {
+		// a 拦截 block runs in place of its body: the body is not at a call site any more
+		// (the statement whose exception it handles is over), so that level is represented
+		// by the frame of the block alone
+		if i+1 < len(fullStack) && fullStack[i+1].IsExceptionCallFrame() {
+			continue
+		}
+		callStack = append(callStack, tr)
+	}
 	if len(callStack) > 0 {
 		// append head lines
 		headTrace := callStack[0]
